@@ -134,14 +134,20 @@ package notify
 // A MultiStage runs its stages in list order, each only while there are alerts left, and stops at the first error
 // (so the log stage after the retry stage is reached only after the delivery succeeded).
 //@ func (MultiStage).Exec
-//@   props C20 C02
+//@   props C20 C02 C04 C05
 //@   assumes forall i int :: 0 <= i && i < len(ms) ==> ms[i] != nil
 //@   at call Stage).Exec assert [in-list-order] count("Stage).Exec") < len(ms) && arg0 == ms[count("Stage).Exec")]
 //@   at call Stage).Exec assert [stop-at-first-error] !called("Stage).Exec") || ret2("Stage).Exec") == nil
 //@   at call Stage).Exec assert [not-on-empty-batch] len(arg3) > 0
 //@   ensures [error-propagates] called("Stage).Exec") && ret2("Stage).Exec") != nil ==> result2 == ret2("Stage).Exec") && result1 == nil
 //@   ensures [success-means-all-ran] result2 == nil && result1 != nil ==> count("Stage).Exec") == len(ms)
+//@   ensures [only-a-stage-error-fails-the-pipeline] result2 != nil ==> called("Stage).Exec") && result2 == ret2("Stage).Exec")
+//@   ensures [later-stages-are-skipped-only-for-an-empty-batch] result2 == nil && count("Stage).Exec") < len(ms) ==>
+//@             (called("Stage).Exec") ? len(ret1("Stage).Exec")) == 0 : len(alerts) == 0)
+//@   ensures [the-last-stage_s-batch-is-passed-on] result2 == nil && count("Stage).Exec") == len(ms) && len(ms) > 0 ==> result1 == ret1("Stage).Exec") && result0 == ret("Stage).Exec")
 //@   loop 1 invariant rangeindex < len(ms) && count("Stage).Exec") == rangeindex + 1 && (!called("Stage).Exec") || ret2("Stage).Exec") == nil)
+//@   loop 1 invariant called("Stage).Exec") == (count("Stage).Exec") > 0)
+//@   loop 1 invariant called("Stage).Exec") ? (alerts == ret1("Stage).Exec") && ctx == ret("Stage).Exec")) : alerts == old(alerts)
 //@   noeffect Stage).Exec
 
 // per integration of a receiver: wait for the cluster position, de-duplicate against the log, deliver with retries,
